@@ -1515,9 +1515,13 @@ class GitTreeTransform(DiskTreeTransform):
             except BaseException:
                 mover.rollback()
                 raise
-            else:
-                mover.apply_deletions()
-        self._tree._apply_index_changes(index_changes)
+        try:
+            self._tree._apply_index_changes(index_changes)
+        finally:
+            # Discard the replaced content only after the index has been
+            # updated: if a deletion fails, the files on disk and the index
+            # both describe the new layout.
+            mover.apply_deletions()
         self._done = True
         self.finalize()
         return _TransformResults(modified_paths, self.rename_count)
